@@ -75,12 +75,13 @@ def def_source(od, stub='none'):
     return [f"    def {python_name(od['name'])}({ps}):", body]
 
 
-def source(D, deco, stub='none'):
+def source(D, deco, stub='none', prelude=True):
     """the module text: same layout as harness/kstatic.py (nameless features, reference types and opposites
     assigned after the classes), @abstract outermost; stub='raise': method bodies raise NotImplementedError as
     generated code does"""
-    L = list(PRELUDE)
-    for en in D.get('enums', []):
+    # prelude=False: only the class statements and what follows them (a second rendering INTO the same module)
+    L = list(PRELUDE) if prelude else []
+    for en in D.get('enums', []) if prelude else []:
         L.append(f"{en['name']} = EEnum({en['name']!r}, literals={list(en['literals'])!r})")
     done = []
     for c in D['classes']:
@@ -803,3 +804,234 @@ def json_able(x):
     if isinstance(x, dict):
         return {k: json_able(v) for k, v in x.items()}
     return x
+
+
+# ------------------------------------------------------------------ populations: class-level queries, re-rendering
+# population history (oi = index of an object in creation order, ri = resource index):
+#   ['make', ci] ['contain', p, ref, c] ['uncontain', p, ref, c] ['rappend', ri, oi] ['rremove', ri, oi]
+#   ['all', ci, None|[ri..]] (allInstances of the class handle) ['eall', ci, None|[ri..]] (of its EClass)
+#   ['eres', oi] ['econtents', oi] ['eallcontents', oi] ['eroot', oi] ['econtainer', oi]
+def _ref(name, t, upper, containment):
+    return {'name': name, 'kind': 'ref', 'type': t, 'lower': 0, 'upper': upper, 'ordered': True, 'unique': True,
+            'containment': containment, 'opposite': None, 'default': None}
+
+
+def gen_population_descr(rng):
+    """Node(kids*, kid, link) with subclasses, optionally under an abstract Base, and an unrelated holder class"""
+    classes = []
+    base = _cls(classes, 'Base', []) if rng.random() < 0.5 else None
+    if base is not None:
+        base['abstract'] = rng.random() < 0.7
+    node = _cls(classes, 'Node', ['Base'] if base is not None else [])
+    node['features'] += [_attr('name', 'EString', 1), _ref('kids', 'Node', -1, True), _ref('kid', 'Node', 1, True),
+                         _ref('link', 'Node', 1, False)]
+    leaf = _cls(classes, 'Leaf', ['Node'])
+    if rng.random() < 0.6:
+        leaf['features'].append(_attr('weight', 'EInt', 1))
+    if rng.random() < 0.6:
+        _cls(classes, 'Special', ['Leaf'])
+    if rng.random() < 0.5:
+        _cls(classes, 'Twig', ['Node'])
+    other = _cls(classes, 'Other', [])
+    other['features'].append(_ref('items', 'Node', -1, True))
+    for c in classes:
+        c['interface'] = False
+    return {'enums': [], 'classes': classes}
+
+
+def revise_descr(D, rng):
+    """the description as revised later: some classes get one more attribute, sometimes one more class"""
+    import copy
+    R = copy.deepcopy(D)
+    for c in R['classes']:
+        if rng.random() < 0.4:
+            c['features'].append(_attr('rev', rng.choice(['EInt', 'EString']), 1))
+    if rng.random() < 0.3:
+        _cls(R['classes'], 'Added', ['Node'])['interface'] = False
+    return R
+
+
+def _has_feature(D, ci, name):
+    byname = {c['name']: c for c in D['classes']}
+    todo, seen = [D['classes'][ci]['name']], set()
+    while todo:
+        c = byname[todo.pop()]
+        if c['name'] in seen:
+            continue
+        seen.add(c['name'])
+        if any(fd['name'] == name for fd in c['features']):
+            return True
+        todo += c['supers']
+    return False
+
+
+def population_history(D, rng):
+    concrete = [ci for ci, c in enumerate(D['classes']) if not c['abstract']]
+    h, cls_of = [], []
+    for _ in range(rng.randrange(4, 9)):
+        cls_of.append(rng.choice(concrete))
+        h.append(['make', cls_of[-1]])
+    n = len(cls_of)
+
+    def queries():
+        q = []
+        for ci in range(len(D['classes'])):
+            for rs in (None, [0], [1], [0, 1]):
+                q.append([rng.choice(['all', 'all', 'eall']), ci, rs])
+        for oi in rng.sample(range(n), min(n, 4)):
+            q += [['eres', oi], ['econtents', oi], ['eallcontents', oi], ['eroot', oi], ['econtainer', oi]]
+        return q
+    for j in range(1, n):
+        if rng.random() < 0.75:
+            p = rng.randrange(j)                       # parents are older: no containment cycle
+            refs = [r for r in ('kids', 'kids', 'kid', 'items') if _has_feature(D, cls_of[p], r)]
+            if refs:
+                h.append(['contain', p, rng.choice(refs), j])
+    for oi in range(n):
+        if rng.random() < 0.5:
+            h.append(['rappend', rng.randrange(2), oi])
+    h += queries()
+    for _ in range(rng.randrange(0, 4)):
+        k = rng.random()
+        if k < 0.4:
+            h.append(['rremove', rng.randrange(2), rng.randrange(n)])
+        elif k < 0.7:
+            h.append(['rappend', rng.randrange(2), rng.randrange(n)])
+        else:
+            p = rng.randrange(n)
+            refs = [r for r in ('kids', 'kid', 'items') if _has_feature(D, cls_of[p], r)]
+            if refs:
+                h.append(['uncontain', p, rng.choice(refs), rng.randrange(n)])
+    h += queries()
+    return h
+
+
+class Population(Behaviour):
+    """several objects of one rendering in two resources; class-level queries answer with object indices"""
+
+    def __init__(self, D, render):
+        super().__init__(D, render)
+        from pyecore.resources import ResourceSet, URI
+        self.pop = []
+        self.rset = ResourceSet()
+        self.res = [self.rset.create_resource(URI(f'/nonexistent/pop{i}.xmi')) for i in range(2)]
+
+    def ix(self, o):
+        return next((i for i, x in enumerate(self.pop) if x is o), 'other')
+
+    def ixs(self, objs, as_set=False):
+        l = [self.ix(o) for o in objs]
+        return sorted(l, key=str) if as_set else l
+
+    def step(self, st):
+        k = st[0]
+        if k == 'make':
+            self.pop.append(self.factories[st[1]]())
+            return len(self.pop) - 1
+        if k in ('all', 'eall'):
+            handle = self.factories[st[1]] if k == 'all' else self.eclasses[st[1]]
+            found = handle.allInstances() if st[2] is None else handle.allInstances(resources=[self.res[r] for r in st[2]])
+            return self.ixs(found, as_set=True)
+        if k in ('rappend', 'rremove'):
+            getattr(self.res[st[1]], 'append' if k == 'rappend' else 'remove')(self.pop[st[2]])
+            return None
+        if k in ('contain', 'uncontain'):
+            parent, child = self.pop[st[1]], self.pop[st[3]]
+            many = parent.eClass.findEStructuralFeature(st[2]).many
+            if k == 'contain':
+                getattr(parent, st[2]).append(child) if many else setattr(parent, st[2], child)
+            else:
+                getattr(parent, st[2]).remove(child) if many else setattr(parent, st[2], None)
+            return None
+        o = self.pop[st[1]]
+        if k == 'eres':
+            r = o.eResource
+            return None if r is None else next((i for i, x in enumerate(self.res) if x is r), 'other')
+        # eContents walks eAllReferences(), a set: the order between two containment features is not fixed
+        if k == 'econtents':
+            return self.ixs(o.eContents, as_set=True)
+        if k == 'eallcontents':
+            return self.ixs(o.eAllContents(), as_set=True)
+        if k == 'eroot':
+            return self.ix(o.eRoot())
+        if k == 'econtainer':
+            c = o.eContainer()
+            return None if c is None else self.ix(c)
+        raise ValueError(k)
+
+
+def rerender_trace(D1, D2, render):
+    """D1 is rendered and a small model saved; then D2 (the same or a revised description) is rendered INTO THE
+    SAME MODULE (static: the class statements are executed again in the module namespace) / built again (dynamic:
+    new EClasses in a new EPackage); a second model is saved with the current classes; both documents are loaded
+    through the module / current package.  Observations: are the loaded objects instances of the CURRENT classes,
+    can they be moved into a current model."""
+    import os
+    import tempfile
+    common.use_repo()
+    from pyecore.resources import ResourceSet, URI
+    deco = render == 'static-decorator'
+    obs = []
+
+    def world(D, mod):
+        if render == 'dynamic':
+            ecs = build_dynamic(D)
+            return dict(zip([c['name'] for c in D['classes']], ecs)), ecs[0].ePackage, None
+        if mod is None:
+            mod = execute(source(D, deco, stub='raise'), 'rr')
+        else:
+            exec(compile(source(D, deco, stub='raise', prelude=False), mod.__name__, 'exec'), mod.__dict__)
+        return {c['name']: mod.__dict__[c['name']] for c in D['classes']}, mod, mod
+
+    def model(cls):
+        root = cls['Node']()
+        root.name = 'r'
+        for k in ('Leaf', 'Node', 'Special', 'Twig', 'Added'):
+            if k in cls:
+                x = cls[k]()
+                x.name = k
+                root.kids.append(x)
+        return root
+
+    def attempt(what, fun):
+        try:
+            obs.append([what, 'ok', canon(fun())])
+        except Exception as e:  # noqa
+            obs.append([what, 'raises', type(e).__name__])
+    mod = None
+    with tempfile.TemporaryDirectory() as td:
+        try:
+            cls1, pkg1, mod = world(D1, None)
+            docs = []
+            for tag, cls in (('before', cls1), ('after', None)):
+                if cls is None:
+                    cls, pkg, mod = world(D2, mod)
+                path = os.path.join(td, tag + '.xmi')
+                r = ResourceSet().create_resource(URI(path))
+                r.append(model(cls))
+                r.save()
+                docs.append((tag, path))
+            attempt('old and current Node are different classes', lambda: cls1['Node'] is not cls['Node'])
+            for tag, path in docs:
+                rs = ResourceSet()
+                rs.metamodel_registry['http://p'] = pkg
+                try:
+                    root = rs.get_resource(URI(path)).contents[0]
+                except Exception as e:  # noqa
+                    obs.append([f'load {tag}', 'raises', type(e).__name__])
+                    continue
+                objs = [root] + list(root.eAllContents())
+                obs.append([f'load {tag}', 'ok', [o.eClass.name for o in objs]])
+                for o in objs:
+                    cur = cls[o.eClass.name]
+                    cur_ec = cur if render == 'dynamic' else cur.eClass
+                    attempt(f'{tag}: loaded {o.eClass.name} is an instance of the current class', lambda: isinstance(o, cur))
+                    attempt(f'{tag}: its eClass is the current EClass', lambda: o.eClass is cur_ec)
+                attempt(f'{tag}: the loaded root moves into a current model', lambda: cls['Node']().kids.append(root))
+                attempt(f'{tag}: a loaded kid moves into a current model', lambda: cls['Other']().items.append(objs[-1]))
+        except Exception as e:  # noqa
+            obs.append(['rendering', 'raises', type(e).__name__])
+        finally:
+            if mod is not None:
+                forget(mod)
+    return json_able(obs)
